@@ -22,7 +22,8 @@
    the `Chunks` arm of feed), and a connector that has nothing to send emits only control datagrams.
    C02_acceptor_waits6
      From every reachable handshake state, after ANY continuation made of ticks, flushes, time,
-     deliveries and losses only (admissible or not), B is still Unconnected or Pending and A is
+     deliveries and losses only (admissible or not, as long as no call panics), B is still
+     Unconnected or Pending and A is
      Connecting or online-with-nothing-to-send. So "both ends online" needs one send by A's
      application; the C02 property itself does not demand it (it speaks of the connecting side
      becoming ready and of submitted chunks; none can be submitted before Ready).
@@ -34,7 +35,14 @@
      quiescent: both ends online, Ready reported exactly once, d delivered (if vital: l_del B =
      l_sub A = [d]), queues and packets empty, nothing in flight.
 
-   Starting states NOT covered (A = the side that called connect):
+   C02_late_accept6 / C02_late_accept_reachable6   (the states in between)
+     A is online (any history) and has something to send or resend, B is still pending (A's first
+     chunk datagrams were lost): the schedule
+         losses ++ [time; A ticks; A flushes] ++ (A's datagrams delivered once each) ++ healing schedule
+     contains only ticks and flushes (4 ticks), and ends quiescent with both ends online and every
+     chunk A's application submitted delivered.
+
+   The other starting states (A = the side that called connect), covered or not:
    - A Unconnected: connect has not been called, nothing is pending; the property demands nothing.
    - A Disconnected (timeout handling by the application, OpDisconnect, or a Close from B), or B
      Disconnected (B's application refused: OpDisconnect while Pending): the handshake has failed
@@ -43,14 +51,17 @@
      chunk datagram or a ConnectAccept from A, and an endpoint that has not got past Connecting has
      emitted only Connects).
    - A Connecting, B Connecting (both applications called connect): reachable; each side ignores
-     the other's Connect for ever; the protocol has no simultaneous open; out of scope.
+     the other's Connect for ever -- C02_simultaneous_open_stuck6 (after any continuation of ticks,
+     flushes, time, deliveries and losses both are still Connecting); the protocol has no
+     simultaneous open; out of scope.
    - A Pending (A is the acceptor): the mirror image; the theorems are stated with A as the
      connector only (the model is symmetric in A and B, the proofs are not repeated).
-   - A Online, B Pending with chunks already submitted by A (A went online, its first datagrams were
-     lost): not covered by a theorem here. The special case "nothing submitted yet" is exactly the
-     end state of C02_handshake6 and is covered by the second half of C02_progress6 (the first
-     submitted chunk takes B online, then the healing schedule applies). In the general case the
-     resend of A's queue plays the role of the first send; not proved.
+   - A Online, B Pending (A went online, B has not yet seen a chunk datagram): COVERED by
+     C02_late_accept6 when A has something to send or resend (the resend of A's queue plays the role
+     of the first send: losses, A ticks and flushes, its datagrams are delivered, then the healing
+     schedule; 4 ticks, no application call besides ticks and flushes), and by C02_pending_idle6
+     otherwise (A's resend queue is empty: then nothing was ever submitted, there is nothing to
+     deliver; this is the end state of C02_handshake6, B stays pending until A's first send).
    - random streams: B's stream must still be usable after B has drawn its token (every delivery
      in the link model asks for a usable stream: hs_rand_ok). *)
 From LibTw2 Require Import Base.Res Model.PacketTypes Model.ConnCore Model.Conn6 Model.LinkGhost Model.Link6
@@ -185,12 +196,95 @@ Proof.
   - destruct (PB He) as [_ Ho]. rewrite E in Ho. exact Ho.
 Qed.
 
+(* ... and one that is out of scope because the protocol has no simultaneous open: if both
+   applications have called connect, both sides stay Connecting whatever the network and the timers do *)
+Theorem C02_simultaneous_open_stuck6 : forall ra rb ls0 w ls w',
+  admissible_run (link_new ra rb) ls0 -> link_run (link_new ra rb) ls0 = Ok w ->
+  c_state (l_conn (k_a w)) = Connecting -> c_state (l_conn (k_b w)) = Connecting ->
+  Forall heal_label ls -> link_run w ls = Ok w' ->
+  c_state (l_conn (k_a w')) = Connecting /\ c_state (l_conn (k_b w')) = Connecting.
+Proof.
+  intros ra rb ls0 w ls w' Hadm Hrun Ca Cb Hl Hr.
+  destruct (early_inv_run ls0 _ w (early_inv_new ra rb) Hadm Hrun) as [PA PB].
+  assert (Hb : both_connecting w).
+  { split; [exact Ca|]. split; [exact Cb|]. split.
+    - apply PA. rewrite Ca. exact I.
+    - apply PB. rewrite Cb. exact I. }
+  destruct (both_connecting_run ls w w' Hb Hl Hr) as [Ha' [Hb' _]]. split; assumption.
+Qed.
+
+(* A is online with something to send or resend, B is still pending: B goes online with A's resend *)
+Theorem C02_late_accept6 : forall w oa t,
+  link_inv w -> c_state (l_conn (k_a w)) = Online oa -> c_state (l_conn (k_b w)) = Pending t ->
+  o_own oa = t -> (o_queue oa <> [] \/ can_send oa = true) ->
+  rand_ok {| e_now := k_now w; e_rand := l_rand (k_a w) |} ->
+  rand_ok {| e_now := k_now w; e_rand := l_rand (k_b w) |} ->
+  exists ls w',
+    admissible_run w ls /\ link_run w ls = Ok w' /\ link_inv w' /\
+    Forall heal_label ls /\ ticks ls = 4%nat /\
+    (exists na nb post, ls = drops SA na ++ drops SB nb ++ post /\ orderly post) /\
+    l_sub (k_a w') = l_sub (k_a w) /\ l_sub (k_b w') = l_sub (k_b w) /\ quiescent w'.
+Proof.
+  intros w oa t Hi Hoa Hpb Htok Hbusy Hra Hrb.
+  destruct (late_accept_link w oa t Hi Hoa Hpb Htok Hbusy Hra Hrb) as
+    [na [nb [dt [n [dt1 [n1 [dt2 [n2 [dt3 [n3 [w' [oa' [ob' [D0 [D1 [D2 [D3 [[Sc Rn] [I' [Sa [Sb [Db [Da [Oa [Ob [Qa [Qb [Pa [Pb [Ra [Rb [Ba Bb]]]]]]]]]]]]]]]]]]]]]]]]]]]]]]]].
+  destruct (late_shape na nb dt n dt1 n1 dt2 n2 dt3 n3 D0 D1 D2 D3) as [L [T [post [E O]]]].
+  exists (late_schedule na nb dt n dt1 n1 dt2 n2 dt3 n3), w'.
+  split; [exact Sc|]. split; [exact Rn|]. split; [exact I'|]. split; [exact L|]. split; [exact T|].
+  split; [exists na, nb, post; split; assumption|]. split; [exact Sa|]. split; [exact Sb|].
+  unfold quiescent. split; [exact Db|]. split; [exact Da|]. split; [exact Ba|]. split; [exact Bb|].
+  exists oa', ob'. repeat split; assumption.
+Qed.
+
+Theorem C02_late_accept_reachable6 : forall ra rb ls0 w oa t,
+  admissible_run (link_new ra rb) ls0 -> link_run (link_new ra rb) ls0 = Ok w ->
+  c_state (l_conn (k_a w)) = Online oa -> c_state (l_conn (k_b w)) = Pending t ->
+  (o_queue oa <> [] \/ can_send oa = true) ->
+  rand_ok {| e_now := k_now w; e_rand := l_rand (k_a w) |} ->
+  rand_ok {| e_now := k_now w; e_rand := l_rand (k_b w) |} ->
+  exists ls w',
+    admissible_run (link_new ra rb) (ls0 ++ ls) /\ link_run (link_new ra rb) (ls0 ++ ls) = Ok w' /\
+    Forall heal_label ls /\ ticks ls = 4%nat /\
+    (exists na nb post, ls = drops SA na ++ drops SB nb ++ post /\ orderly post) /\
+    l_sub (k_a w') = l_sub (k_a w) /\ l_sub (k_b w') = l_sub (k_b w) /\ quiescent w'.
+Proof.
+  intros ra rb ls0 w oa t Hadm Hrun Hoa Hpb Hbusy Hra Hrb.
+  destruct (link_run_inv ls0 _ (link_new_inv ra rb) Hadm) as [w0 [Hrun0 Hi]].
+  rewrite Hrun in Hrun0. injection Hrun0 as <-.
+  assert (Htok : o_own oa = t).
+  { destruct (tok_inv_run ls0 _ w (tok_inv_new ra rb) Hadm Hrun) as [PA _].
+    pose proof (pj_on _ _ _ PA oa Hoa) as H. rewrite Hpb in H. exact H. }
+  destruct (C02_late_accept6 w oa t Hi Hoa Hpb Htok Hbusy Hra Hrb) as [ls [w' [A [R [_ [L [T [S [Sa [Sb Q]]]]]]]]]].
+  exists ls, w'. split; [eapply admissible_run_app; eassumption|].
+  split; [rewrite (link_run_app ls0 _ w ls Hrun); exact R|].
+  repeat (split; [assumption|]). exact Q.
+Qed.
+
+(* ... and if A's resend queue is empty while B is still pending, nothing was ever submitted *)
+Theorem C02_pending_idle6 : forall ra rb ls0 w oa t,
+  admissible_run (link_new ra rb) ls0 -> link_run (link_new ra rb) ls0 = Ok w ->
+  c_state (l_conn (k_a w)) = Online oa -> c_state (l_conn (k_b w)) = Pending t -> o_queue oa = [] ->
+  l_sub (k_a w) = [] /\ l_del (k_a w) = [] /\ l_sub (k_b w) = [] /\ l_del (k_b w) = [] /\ o_own oa = t.
+Proof.
+  intros ra rb ls0 w oa t Hadm Hrun Hoa Hpb Hq.
+  destruct (link_run_inv ls0 _ (link_new_inv ra rb) Hadm) as [w0 [Hrun0 Hi]].
+  rewrite Hrun in Hrun0. injection Hrun0 as <-.
+  destruct (pending_idle_nothing w oa t Hi Hoa Hpb Hq) as [H1 [H2 [H3 H4]]].
+  repeat (split; [assumption|]).
+  destruct (tok_inv_run ls0 _ w (tok_inv_new ra rb) Hadm Hrun) as [PA _].
+  pose proof (pj_on _ _ _ PA oa Hoa) as H. rewrite Hpb in H. exact H.
+Qed.
+
 (* (H3) non-vacuity: two concrete histories end in states that meet every hypothesis of the theorems
    above -- A has called connect and (1) its Connect is still in flight / will be lost, B has seen
    nothing; (2) B has got the Connect and answered, its ConnectAccept is in flight / will be lost *)
 Definition hs_demo_start : link := link_new [[9; 9; 9; 9]] [[1; 2; 3; 4]; [5; 6; 7; 8]].
 Definition hs_demo_lost : list llabel := [LApp SA OpConnect; LTime 100000].
 Definition hs_demo_answered : list llabel := [LApp SA OpConnect; LDeliver SA 0; LTime 100000].
+(* (3) A is online and has submitted three chunks; the datagram is in flight / will be lost; B is pending *)
+Definition hs_demo_late : list llabel :=
+  [LApp SA OpConnect; LDeliver SA 0; LDeliver SB 0;
+   LApp SA (OpSend [11] true); LApp SA (OpSend [22] true); LApp SA (OpSend [33] false); LApp SA OpFlush; LTime 300000].
 
 Example C02_hs_nonvacuous :
   (exists w, admissible_run hs_demo_start hs_demo_lost /\ link_run hs_demo_start hs_demo_lost = Ok w /\
@@ -198,9 +292,15 @@ Example C02_hs_nonvacuous :
      c_state (l_conn (k_b w)) = Unconnected /\ length (k_ab w) = 1%nat /\ k_ba w = []) /\
   (exists w, admissible_run hs_demo_start hs_demo_answered /\ link_run hs_demo_start hs_demo_answered = Ok w /\
      link_inv w /\ handshake_start w /\ hs_rand_ok w /\
-     c_state (l_conn (k_b w)) = Pending (Some [1; 2; 3; 4]) /\ length (k_ab w) = 1%nat /\ length (k_ba w) = 1%nat).
+     c_state (l_conn (k_b w)) = Pending (Some [1; 2; 3; 4]) /\ length (k_ab w) = 1%nat /\ length (k_ba w) = 1%nat) /\
+  (exists w oa, admissible_run hs_demo_start hs_demo_late /\ link_run hs_demo_start hs_demo_late = Ok w /\
+     link_inv w /\ c_state (l_conn (k_a w)) = Online oa /\ c_state (l_conn (k_b w)) = Pending (Some [1; 2; 3; 4]) /\
+     o_own oa = Some [1; 2; 3; 4] /\ (o_queue oa <> [] \/ can_send oa = true) /\
+     rand_ok {| e_now := k_now w; e_rand := l_rand (k_a w) |} /\
+     rand_ok {| e_now := k_now w; e_rand := l_rand (k_b w) |} /\
+     length (o_queue oa) = 2%nat /\ l_sub (k_a w) = [[11]; [22]] /\ length (k_ab w) = 3%nat /\ length (k_ba w) = 1%nat).
 Proof.
-  split.
+  split; [|split].
   - assert (Hadm : admissible_run hs_demo_start hs_demo_lost) by (apply admissible_runb_ok; vm_compute; reflexivity).
     destruct (link_run_inv hs_demo_lost _ (link_new_inv _ _) Hadm) as [w [Hrun Hi]].
     exists w. pose proof Hrun as Hrun'. vm_compute in Hrun'. injection Hrun' as Hw. rewrite <- Hw in *. clear Hw.
@@ -211,6 +311,12 @@ Proof.
     exists w. pose proof Hrun as Hrun'. vm_compute in Hrun'. injection Hrun' as Hw. rewrite <- Hw in *. clear Hw.
     split; [exact Hadm|]. split; [exact Hrun|]. split; [exact Hi|].
     split; [apply handshake_startb_ok; reflexivity|]. split; [apply hs_rand_okb_ok; reflexivity|]. repeat split.
+  - assert (Hadm : admissible_run hs_demo_start hs_demo_late) by (apply admissible_runb_ok; vm_compute; reflexivity).
+    destruct (link_run_inv hs_demo_late _ (link_new_inv _ _) Hadm) as [w [Hrun Hi]].
+    exists w. pose proof Hrun as Hrun'. vm_compute in Hrun'. injection Hrun' as Hw. rewrite <- Hw in *. clear Hw.
+    eexists. split; [exact Hadm|]. split; [exact Hrun|]. split; [exact Hi|].
+    split; [reflexivity|]. split; [reflexivity|]. split; [reflexivity|]. split; [left; discriminate|].
+    split; [apply rand_okb_ok; reflexivity|]. split; [apply rand_okb_ok; reflexivity|]. repeat split.
 Qed.
 
 (* ... and the schedules computed for these two states.
@@ -218,9 +324,13 @@ Qed.
        1.2.3.4 and answers, A is online and Ready; A's application submits the vital chunk [42]; B is
        online and has it; healing: A resends after 1 s, B acknowledges, A sends a keep-alive.
    (2) Connect and ConnectAccept are lost; B's timer runs out, B repeats the ConnectAccept; A's
-       application submits the non-vital chunk [42]; healing with keep-alives only. *)
+       application submits the non-vital chunk [42]; healing with keep-alives only.
+   (3) the three datagrams of A and B's ConnectAccept are lost; A's resend timer runs out 0.7 s later,
+       A resends [11] [22] in one datagram, B is online and has both; healing as in (1). *)
 Definition hs_demo_schedule1 : list llabel := progress_schedule true 1 0 400000 [42] true 1000000 1 0 1 500000 1.
 Definition hs_demo_schedule2 : list llabel := progress_schedule false 1 1 400000 [42] false 500000 1 0 1 500000 1.
+
+Definition hs_demo_schedule3 : list llabel := late_schedule 3 1 700000 1 1000000 1 0 1 500000 1.
 
 Definition demo_quiescent (w : link) (sub nvr : list bytes) (now : Z) : Prop :=
   l_sub (k_a w) = sub /\ l_del (k_b w) = sub /\ l_nvr (k_b w) = nvr /\ l_sub (k_b w) = [] /\ l_del (k_a w) = [] /\
@@ -253,9 +363,14 @@ Example C02_hs_demo_run :
    match link_run hs_demo_start (hs_demo_answered ++ hs_demo_schedule2) with
    | Ok w => demo_quiescent w [] [[42]] 1500000
    | _ => False
+   end) /\
+  (admissible_run hs_demo_start (hs_demo_late ++ hs_demo_schedule3) /\
+   match link_run hs_demo_start (hs_demo_late ++ hs_demo_schedule3) with
+   | Ok w => demo_quiescent w [[11]; [22]] [] 2500000
+   | _ => False
    end).
 Proof.
-  split; [|split; [|split]]; (split; [apply admissible_runb_ok; vm_compute; reflexivity|]);
+  split; [|split; [|split; [|split]]]; (split; [apply admissible_runb_ok; vm_compute; reflexivity|]);
     vm_compute; repeat split.
 Qed.
 
@@ -265,5 +380,9 @@ Print Assumptions C02_acceptor_waits6.
 Print Assumptions C02_progress6.
 Print Assumptions C02_progress_reachable6.
 Print Assumptions C02_connecting_peer_offline6.
+Print Assumptions C02_simultaneous_open_stuck6.
+Print Assumptions C02_late_accept6.
+Print Assumptions C02_late_accept_reachable6.
+Print Assumptions C02_pending_idle6.
 Print Assumptions C02_hs_nonvacuous.
 Print Assumptions C02_hs_demo_run.
